@@ -2,6 +2,15 @@
 from pvc.api import *
 from contracts.polyspec import *
 
+
+def _jacobi_ab(rng):
+    """Jacobi weight parameters: random, or one of the classical special pairs (Legendre, the four Chebyshev kinds, Gegenbauer,
+    pairs with alpha + beta = 0 or -1, where the general recurrence coefficients at n = 0 are 0/0 and the code has a special case)"""
+    special = [(0.0, 0.0), (-0.5, -0.5), (0.5, 0.5), (-0.5, 0.5), (0.5, -0.5), (0.3, -0.3), (-0.25, -0.75), (1.0, 1.0), (2.0, -0.5)]
+    if rng.random() < 0.4:
+        return special[int(rng.integers(0, len(special)))]
+    return float(rng.uniform(-0.9, 3)), float(rng.uniform(-0.9, 3))
+
 XK = ['scalar', '1d', '2d']
 
 
@@ -118,10 +127,24 @@ def conic_der(kind):
     check('is-derivative', approx(dz * (1 - (1 + k) * c * z), c * rho, 1e-9))
 
 
+@harness('C09', 'der_direction_cosine_spheroid/is-derivative', variants=['given-phi', 'own-phi'],
+         fuc=['prysm.x.raytracing.surfaces.der_direction_cosine_spheroid', 'prysm.x.raytracing.surfaces.phi_spheroid'])
+def dircos_der(kind):
+    """phi(rho)^2 = 1 - (1+k) c^2 rho^2 (phi_spheroid, phi > 0), so phi phi' = -(1+k) c^2 rho and (1/phi)' = -phi'/phi^2 =
+    (1+k) c^2 rho / phi^3: the routine documented as d/drho of 1/phi returns exactly that, for every conic constant."""
+    c, rho, k = Real('c'), Real('rho', 0), Real('kappa')
+    assume(1 - (1 + k) * c * c * rho * rho > 0)
+    S = 'prysm.x.raytracing.surfaces.'
+    phi = call(S + 'phi_spheroid', c, k, rho * rho)
+    check('phi-squared', And(phi > 0, approx(phi * phi, 1 - (1 + k) * c * c * rho * rho, 1e-12)))
+    d = call(S + 'der_direction_cosine_spheroid', c, k, rho, phi=phi) if kind == 'given-phi' else call(S + 'der_direction_cosine_spheroid', c, k, rho)
+    check('is-derivative-of-one-over-phi', approx(d * phi * phi * phi, (1 + k) * c * c * rho, 1e-9))
+
+
 # ------------------------------------------------------------------------------------ bounded: everything else
 DER_CASES = ['jacobi_der', 'laguerre_der', 'cheby_der', 'legendre_der', 'zernike_nm_der', 'der_seq-families',
              'jacobi_sum_clenshaw_der', 'clenshaw_qbfs_der', 'compute_z_zprime_Qbfs', 'compute_z_zprime_Qcon',
-             'compute_z_zprime_Q2d', 'off_axis_conic_der', 'off_axis_conic_sigma_der', 'Q2d_and_der']
+             'compute_z_zprime_Q2d', 'off_axis_conic_der', 'off_axis_conic_sigma_der', 'Q2d_and_der', 'der_direction_cosine_spheroid']
 
 
 def _fd(f, x, h=1e-5):
@@ -145,7 +168,7 @@ def bounded_der(which):
     tol = dict(rtol=2e-6, atol=2e-6)
     ok = True
     if which == 'jacobi_der':
-        a, b = float(rng.uniform(-0.9, 3)), float(rng.uniform(-0.9, 3))
+        a, b = _jacobi_ab(rng)
         for n in range(0, 9):
             f = lambda xx: get(P + 'jacobi.jacobi')(n, a, b, xx)
             ok &= bool(np.allclose(get(P + 'jacobi.jacobi_der')(n, a, b, x), _fd(f, x), **tol))
@@ -175,7 +198,7 @@ def bounded_der(which):
                     ok &= bool(np.allclose(dr, _fd(lambda rr: Z(rr, t), r), **tol)) and bool(np.allclose(dt, _fd(lambda tt: Z(r, tt), t), **tol))
     elif which == 'der_seq-families':
         ns = sorted(set(int(v) for v in rng.integers(0, 10, 5)))
-        a, b = float(rng.uniform(-0.9, 3)), float(rng.uniform(-0.9, 3))
+        a, b = _jacobi_ab(rng)
         pairs = [('jacobi.jacobi_der_seq', lambda: get(P + 'jacobi.jacobi_der_seq')(ns, a, b, x), lambda n: get(P + 'jacobi.jacobi_der')(n, a, b, x)),
                  ('hermite.hermite_He_der_seq', lambda: get(P + 'hermite.hermite_He_der_seq')(ns, x), lambda n: get(P + 'hermite.hermite_He_der')(n, x)),
                  ('hermite.hermite_H_der_seq', lambda: get(P + 'hermite.hermite_H_der_seq')(ns, x), lambda n: get(P + 'hermite.hermite_H_der')(n, x)),
@@ -188,7 +211,7 @@ def bounded_der(which):
             good = all(np.allclose(np.asarray(seq[i]), np.asarray(onef(n)), **tol) for i, n in enumerate(ns))
             check('der_seq-' + nm, bool(good))
     elif which == 'jacobi_sum_clenshaw_der':
-        a, b = float(rng.uniform(-0.9, 3)), float(rng.uniform(-0.9, 3))
+        a, b = _jacobi_ab(rng)
         L = int(rng.integers(1, 8))
         s = rng.standard_normal(L)
         if rng.random() < 0.4:
@@ -224,6 +247,12 @@ def bounded_der(which):
         z, zr, zt = f(cm0, ams, bms, u, t)
         ok &= bool(np.allclose(zr, _fd(lambda uu: f(cm0, ams, bms, uu, t)[0], u), **tol))
         ok &= bool(np.allclose(zt, _fd(lambda tt: f(cm0, ams, bms, u, tt)[0], t), **tol))
+    elif which == 'der_direction_cosine_spheroid':
+        S = 'prysm.x.raytracing.surfaces.'
+        c, k = float(rng.uniform(-0.02, 0.02)), float(rng.choice([0.0, -1.0, float(rng.uniform(-2, 1))]))
+        r = rng.uniform(0.5, 20, 6)
+        val = lambda rr: 1 / get(S + 'phi_spheroid')(c, k, rr * rr)
+        ok &= bool(np.allclose(get(S + 'der_direction_cosine_spheroid')(c, k, r), _fd(val, r, 1e-4), rtol=1e-6, atol=1e-10))          # atol: rounding noise of a difference quotient of O(1) values
     else:
         S = 'prysm.x.raytracing.surfaces.'
         c, k = float(rng.uniform(-0.01, 0.01)), float(rng.uniform(-1.5, 0.5))
